@@ -153,6 +153,28 @@ Definition item_run (it : item) (b : list N) : res nat :=
   | IFail => Err EItem
   end.
 
+(* Serializable objects: a selector (SerializableReadGuardFunc) maps the type code to an object, given by its
+   Deserialize function (bytes -> consumed | error), or rejects the code *)
+Inductive tden := TDU32 | TDByte | TDNone.           (* TypeDenotationUint32 / Byte / None *)
+Definition tden_size (t : tden) : nat := match t with TDU32 => 4 | TDByte => 1 | TDNone => 0 end.
+Definition selector : Type := Z -> option (list N -> res nat).
+Definition obj_type (t : tden) (b : list N) : Z := Z.of_N (le_dec (firstn (tden_size t) b)).
+
+(* readObject on the bytes b: GetObjectType (needs the whole type denotation), the selector, Deserialize *)
+Definition obj_item (t : tden) (sel : selector) (b : list N) : res nat :=
+  if length b <? tden_size t then Err ENotEnough
+  else match sel (obj_type t b) with None => Err EItem | Some f => f b end.
+
+(* the objects and selector of the harness: type code 0 or 1 = a body of k1 bytes behind the header, 2 = k2 bytes,
+   3 = an object whose Deserialize fails, anything else is rejected by the selector *)
+Definition hobj (hdr k : nat) (b : list N) : res nat := if length b <? hdr + k then Err ENotEnough else Ok (hdr + k).
+Definition hsel (hdr k1 k2 : nat) : selector := fun ty =>
+  if ((ty =? 0) || (ty =? 1))%Z then Some (hobj hdr k1)
+  else if (ty =? 2)%Z then Some (hobj hdr k2)
+  else if (ty =? 3)%Z then Some (fun _ => Err EItem) else None.
+
+Definition MinPayloadByteSize : nat := 5.            (* consts.go: UInt32ByteSize + OneByte *)
+
 Inductive dop :=
 | DSkip (n : nat)
 | DBool | DByte | DU256
@@ -164,6 +186,9 @@ Inductive dop :=
 | DPayloadLen                           (* ReadPayloadLength: returns (value, err), ignores and never sets d.err *)
 | DSeq (validation : bool) (l : lpt) (f : list N -> res nat) (r : rules)
 | DCheckType (prefix : Z) (u32 : bool)  (* CheckTypePrefix with TypeDenotationUint32 / Byte *)
+| DGetType (t : tden)                   (* GetObjectType: returns (value, err), offset and d.err untouched *)
+| DObject (t : tden) (sel : selector)   (* ReadObject *)
+| DPayload (sel : selector)             (* ReadPayload *)
 | DConsumedAll.
 
 Inductive sres := SOk (s : dst) (o : dout) (cost : N) | SPanic.
@@ -211,6 +236,9 @@ Definition dstep (s : dst) (o : dop) : sres :=
   | DPayloadLen =>
       if length (rem s) <? 4 then SOk s (OErrv ENotEnough) 0
       else SOk (dadv s 4) (ONum (Z.of_N (le_dec (firstn 4 (rem s))))) 0
+  | DGetType t =>
+      if length (rem s) <? tden_size t then SOk s (OErrv ENotEnough) 0
+      else SOk s (ONum (obj_type t (rem s))) 0
   | _ =>
   match derr s with
   | Some _ => SOk s ONone 0
@@ -293,9 +321,35 @@ Definition dstep (s : dst) (o : dop) : sres :=
         if length (rem s) <? n then SOk (dfail s ENotEnough) ONone 0
         else if (Z.of_N (le_dec (firstn n (rem s))) =? (if u32 then prefix else prefix mod 256))%Z
              then SOk (dadv s n) ONone 0 else SOk (dfail s ETypeMismatch) ONone 0
+    | DObject t sel =>
+        match obj_item t sel (rem s) with
+        | Panic => SPanic
+        | Err e => SOk (dfail s e) ONone 0
+        | Ok n => if length (rem s) <? n then SPanic    (* the object broke its contract: d.offset passes the end *)
+                  else SOk (dadv s n) (OBytes (firstn n (rem s))) 0
+        end
+    | DPayload sel =>
+        if length (rem s) <? 4 then SOk (dfail s ENotEnough) ONone 0
+        else
+          let plen := Z.of_N (le_dec (firstn 4 (rem s))) in
+          let s1 := dadv s 4 in
+          if (plen =? 0)%Z then SOk s1 ONone 0
+          else if length (rem s1) <? MinPayloadByteSize then SOk (dfail s1 ENotEnough) ONone 0
+          else if (Z.of_nat (length (rem s1)) <? plen)%Z then SOk (dfail s1 ENotEnough) ONone 0
+          else if length (rem s1) <? 4 then SPanic     (* binary.LittleEndian.Uint32(d.src[d.offset:]): index out of range *)
+          else match sel (Z.of_N (le_dec (firstn 4 (rem s1)))) with
+               | None => SOk (dfail s1 EItem) ONone 0
+               | Some f =>
+                   match f (rem s1) with
+                   | Panic => SPanic
+                   | Err e => SOk (dfail s1 e) ONone 0
+                   | Ok n => if negb (Z.of_nat n =? plen)%Z then SOk (dfail s1 EOther) ONone 0     (* ErrInvalidBytes *)
+                             else SOk (dadv s1 n) (OBytes (firstn n (rem s1))) 0
+                   end
+               end
     | DConsumedAll =>
         match rem s with [] => SOk s ONone 0 | _ => SOk (dfail s ENotAllConsumed) ONone 0 end
-    | DPayloadLen => SPanic (* unreachable: handled above *)
+    | DPayloadLen | DGetType _ => SPanic (* unreachable: handled above *)
     end
   end
   end.
